@@ -73,8 +73,49 @@ fn lex_and_check(ctx: &Ctx, i: usize, text: &str, what: &str) -> LexResult {
     res
 }
 
+/// Thread churn: one long-lived thread keeps lexing while ~70 short-lived threads are
+/// created one after the other (state keyed by thread identity or creation ordinal).
+fn churn_scenario(ctx: &std::sync::Arc<Ctx>) {
+    let mut rng = shuttle::rand::thread_rng();
+    let first = rng.gen_range(0..ctx.pool.len());
+    let near = |rng: &mut shuttle::rand::rngs::ThreadRng| (first + rng.gen_range(0usize..9)).saturating_sub(4).min(ctx.pool.len() - 1);
+    let long_lived = {
+        let ctx = ctx.clone();
+        let picks: Vec<usize> = (0..12).map(|_| near(&mut rng)).collect();
+        shuttle::thread::spawn(move || {
+            THREADS.fetch_add(1, Ordering::Relaxed);
+            for i in picks {
+                let text = ctx.pool[i].1.clone();
+                if text.len() <= 200 {
+                    let _ = lex_and_check(&ctx, i, &text, "long-lived thread during churn");
+                }
+            }
+            #[cfg(sas_lexer_verif)]
+            sas_lexer::verif::set_callback(None);
+        })
+    };
+    for _ in 0..70 {
+        let ctx = ctx.clone();
+        let i = near(&mut rng);
+        let h = shuttle::thread::spawn(move || {
+            THREADS.fetch_add(1, Ordering::Relaxed);
+            let text = ctx.pool[i].1.clone();
+            if text.len() <= 200 {
+                let _ = lex_and_check(&ctx, i, &text, "short-lived thread during churn");
+            }
+            #[cfg(sas_lexer_verif)]
+            sas_lexer::verif::set_callback(None);
+        });
+        h.join().unwrap();
+    }
+    long_lived.join().unwrap();
+}
+
 fn scenario(ctx: &std::sync::Arc<Ctx>) {
     let mut rng = shuttle::rand::thread_rng();
+    if rng.gen_range(0u32..40) == 0 {
+        return churn_scenario(ctx);
+    }
     let nthreads = rng.gen_range(2usize..5);
     let npool = rng.gen_range(1usize..4);
     // similar sources exercise the same code paths at the same time: after the first pick the
